@@ -1,6 +1,6 @@
 #!/usr/bin/env python3
-"""Self-test of the C11 check (not a registered command): seeds twelve bugs into scratch copies of the five
-synchronisation sources and runs the quick check on each.  Every mutant must be reported with a concrete failing
+"""Self-test of the C11 check (not a registered command): seeds nineteen bugs into scratch copies of the
+synchronisation sources / headers and runs the quick check on each.  Every mutant must be reported with a concrete failing
 input by the independent reference (impl-vs-reference), otherwise the oracle has a hole.
 
     python3 tools/areas/_sync_mutants.py [mutant-name ...]        (NSTD_REPO = tree to mutate, default /repo)
@@ -40,6 +40,16 @@ MUTANTS = {
         "  if(pthread_create(&thread, 0, (void* (*) (void *)) proc, param) != 0)\n    return true;"),
     "thread-dtor-does-not-join": ("src/Thread.cpp", "  if(thread)\n    join();", "  thread = 0;"),
     "monitor-set-does-not-store-flag": ("src/Monitor.cpp", "  signaled = true;\n", "\n"),
+    # round 7: the ENOSYS polling fallback, Thread::sleep, Monitor::tryLock, the Guards
+    "sem-poll-sleeps-too-short": ("src/Semaphore.cpp", "    usleep(10 * 1000);", "    usleep(1 * 1000);"),
+    "sem-poll-step-too-big": ("src/Semaphore.cpp", "i < timeout; i += 10)", "i < timeout; i += 20)"),
+    "sem-poll-start-late": ("src/Semaphore.cpp", "for(int i = 0; i < timeout;", "for(int i = 5; i < timeout;"),
+    "thread-sleep-wrong-unit": ("src/Thread.cpp", "  usleep(milliseconds * 1000);", "  usleep(milliseconds * 100);"),
+    "monitor-trylock-blocks": ("src/Monitor.cpp", "  return pthread_mutex_trylock((pthread_mutex_t*)mdata) == 0;",
+        "  return pthread_mutex_lock((pthread_mutex_t*)mdata) == 0;"),
+    "mutex-guard-dtor-no-unlock": ("include/nstd/Mutex.hpp", "    ~Guard() { _mutex.unlock(); }", "    ~Guard() { }"),
+    "monitor-guard-twait-returns-true": ("include/nstd/Monitor.hpp", "    bool wait(int64 timeout) {return _monitor.wait(timeout);}",
+        "    bool wait(int64 timeout) {_monitor.wait(timeout); return true;}"),
 }
 
 
